@@ -14,12 +14,29 @@
 // by the script.
 //
 // Node pipelines are asynchronous. After every delivery the harness passes a *barrier*: a
-// request holding one fresh marker operation twice goes through the same ingress; the first
-// copy is accepted (-> gossip store, observers), the second rejected (-> feedback sender);
-// all stages are FIFO, so when the marker is visible at all ends everything before it has
-// taken effect. Marker keys are private ("~m<n>", version 0, leaseholder 99), never leave the
-// node through the harness and are ignored by every comparison. Waiting is bounded by 20 s and
-// a timeout discards the case.
+// request holding one fresh marker operation (version 1) followed by an older copy of it
+// (version 0) goes through the same ingress; the first is accepted (-> gossip store,
+// observers), the second rejected (-> feedback sender); all stages are FIFO, so when the marker
+// is visible at all ends everything before it has taken effect. The feedback path has its own
+// barrier (enough feedback for an infected marker to cross the recovery threshold, then wait
+// until it has left the infected set). Marker keys are private ("~m<n>", leaseholder 99), never
+// leave the node through the harness and are ignored by every comparison. Waiting is bounded
+// by 20 s and a timeout discards the case; if only the rejected copy fails to show up the case
+// goes on (state and notifications are settled, the oracles decide) but is never a pass.
+//
+// Violation signatures
+//
+//	order-dependent-state[:detail]          TestC06Order: plans disagree / differ from LWW
+//	state-not-lww:<detail>:<phase>          a node does not hold the LWW fold of what it was given
+//	digest-regressed:<phase>:<tie|older-version|digest-removed>
+//	quiescent-divergence:<cause>[+<cause>]  causes: displaced-by-feedback, infected-set-lost-on-restart,
+//	                                        recovery-skipped, overwritten-by-recovery,
+//	                                        overwritten-by-forwarded-write, sir-early-removal, unexplained
+//	notified-twice, stale-notification, phantom-notification, missed-notification,
+//	filter-mismatch:host-led-visible, filter-mismatch:remote-hidden            (C13)
+//
+// phase = local-write | gossip | feedback | recovery | stop | idle. Each divergence cause is
+// matched against known_findings.json separately as "quiescent-divergence:<cause>".
 package verif_c06_test
 
 import (
